@@ -54,7 +54,11 @@ Theorem C26_finding_class_exact : forall i,
 Proof. exact kf_C26_exact. Qed.
 Print Assumptions C26_finding_class_exact.
 
-(* Non-vacuity of the guarded statement: "Connection: close", "te: trailers", "Transfer-Encoding: chunked", "X-Foo: 1"
+(* Non-vacuity of the exactness statement: the corpus case kf1-conn-nominated ("Connection: x-foo, close", "X-Foo: 1"). *)
+Example C26_finding_class_nonvacuous : wf_C26 corpus_kf1 = true /\ kf_C26 corpus_kf1 = 1.
+Proof. exact corpus_kf1_ok. Qed.
+
+(* Non-vacuity of the guarded statement (corpus case wf-example): "Connection: close", "te: trailers", "Transfer-Encoding: chunked", "X-Foo: 1"
    with a chunked body; the backend gets Host, Transfer-Encoding: chunked (own framing), Te: trailers, X-Foo: 1. *)
 Example C26_partial_nonvacuous :
   wf_C26 ex_wire = true /\ kf_C26 ex_wire = 0 /\
